@@ -24,6 +24,8 @@ IEXN = "IExn"       # exceptions inside the interruptor
 
 
 class TDomain:
+    self_kind = "no-self"
+
     def __init__(self, role, cells, statics=None):
         self.role = role            # "gen" | "trigger" | "interruptor"
         self.cells = cells          # names of dynamic closure cells
@@ -245,21 +247,25 @@ def generate(src: Path):
         raise Unsupported("task_timeout takes one argument")
     gdom = TDomain("gen", cells)
     gdom.trigger_name = trig.name
-    gex = Executor(gdom, fn, {fn.args.args[0].arg: Dyn("timeout", "Option Int")}, ident="task_timeout")
+    helpers = {n.name: n for n in tree.body if isinstance(n, ast.FunctionDef) and not n.decorator_list
+               and n.name not in ("task_throw", "create_pytask", "task_factory", "c_task_reschedule",
+                                  "future_find_task_callback")}
+    gex = Executor(gdom, fn, {fn.args.args[0].arg: Dyn("timeout", "Option Int")}, ident="task_timeout",
+                   helpers=helpers)
     text = HEADER
     text += coroutine_text("tt", "`task_timeout(timeout)` (the context manager's generator)", gex, GEXC,
                            "YResume", "(s : State) (id : Nat) (timeout : Option Int) ",
                            prologue="  let s := Prim.enterFrame s id timeout.isSome\n")
     statics = {k: v for k, v in gex.static_binds.items() if not (isinstance(v, Ent) and v.kind == "closure")}
     tdom = TDomain("trigger", cells, statics)
-    tex = Executor(tdom, trig, {}, ident="trigger_timeout")
+    tex = Executor(tdom, trig, {}, ident="trigger_timeout", helpers=helpers)
     body = tex.entry()
     if tex.order:
         raise Unsupported("trigger_timeout suspends")
     text += ("/-- the timer callback `trigger_timeout()` -/\n"
              f"def trigger (s : State) (id : Nat) : State × Fin IExn :=\n{body}\n")
     idom = TDomain("interruptor", cells, statics)
-    iex = Executor(idom, intr, {}, ident="interruptor")
+    iex = Executor(idom, intr, {}, ident="interruptor", helpers=helpers)
     text += coroutine_text("it", "the `interruptor()` coroutine", iex, IEXN, "IResume",
                            "(s : State) (id : Nat) (accepted : Bool) ")
     text += "end Asynkit.Gen.Timeout\n"
